@@ -12,6 +12,11 @@
 //! naive interpreter run directly over the instructions supplied at their code offsets, entry
 //! lengths aligned to the address size, equal CIEs share an id and are emitted once, tables with an
 //! inexpressible / decreasing offset are not accepted, plainly well-formed tables are not rejected.
+//!
+//! `wcfi-rows`: the same request; the reply is the rows gimli reads back for every FDE, which the
+//! Lean side answers from the **Spec** (`Spec.WCfi.wTable`, the meaning of the supplied
+//! instructions at their code offsets) — the statement of theorem `rows_roundtrip` run as a
+//! differential test against the real writer + reader.
 use crate::prop::{Ctx, Tier};
 use crate::util::{digest_step, hex, rerr, str_hash, unhex, werr, Rng, DIGEST_INIT};
 use gimli::write as w;
@@ -795,6 +800,86 @@ where
     }
 }
 
+/// the read-back domain of `wcfi-rows` (the same test as `readable` in lean/Gimli/Drv/C14.lean)
+fn readable(eh: bool, cies: &[ACie], fdes: &[AFde]) -> bool {
+    fdes.iter().all(|f| {
+        let Some(c) = cies.get(f.k) else { return false };
+        let fits = |a: &AAddr| matches!(a, Some(v) if c.asz >= 8 || *v < (1u64 << (8 * c.asz as u32)));
+        (c.asz == 4 || c.asz == 8)
+            && fits(&f.addr)
+            && f.lsda.as_ref().map_or(true, |a| fits(a))
+            && f.lsda.is_some() == c.lsda.is_some()
+            && c.pers.as_ref().map_or(true, |(_, a)| fits(a))
+            && !(eh && c.ra >= 128)
+    })
+}
+
+fn rows_of<'a, S: UnwindSection<Rd<'a>>>(sec: &S, secbytes: &[u8], bases: &BaseAddresses, off: usize, cap: usize) -> String
+where
+    S::Offset: From<usize>,
+{
+    let r = match sec.fde_from_offset(bases, S::Offset::from(off), S::cie_from_offset) {
+        Ok(r) => r,
+        Err(e) => return format!("?{}", rerr(&e)),
+    };
+    let mut ctx: Box<UnwindContext<usize, StVec>> = Box::new(UnwindContext::new_in());
+    let mut got: Vec<String> = vec![];
+    let end = match r.rows(sec, bases, &mut ctx) {
+        Err(e) => Some(rerr(&e)),
+        Ok(mut table) => loop {
+            match table.next_row() {
+                Ok(Some(row)) => got.push(row_s(row, secbytes)),
+                Ok(None) => break None,
+                Err(e) => break Some(rerr(&e)),
+            }
+            if got.len() > cap {
+                break Some("TooManyRows".into());
+            }
+        },
+    };
+    let rows = join(got, "|");
+    match end {
+        None => rows,
+        Some(e) => format!("{rows}!{e}"),
+    }
+}
+
+/// the rows gimli reads back for every FDE of a written table, in `add_fde` order
+fn fde_rows_text(eh: bool, big: bool, cies: &[ACie], fdes: &[AFde], wr: &Written, bytes: &[u8]) -> String {
+    let bases = BaseAddresses::default().set_eh_frame(0);
+    let endian = if big { RunTimeEndian::Big } else { RunTimeEndian::Little };
+    let entries = match walk_entries(bytes, big) {
+        Ok(e) => e,
+        Err(e) => return format!("?layout-{}", e.replace(' ', "-")),
+    };
+    let mut emitted: std::collections::BTreeSet<usize> = Default::default();
+    let mut it = entries.iter();
+    let mut per = vec![];
+    for f in fdes {
+        let c = &cies[f.k];
+        if emitted.insert(wr.ids[f.k]) {
+            it.next();
+        }
+        let Some(&(off, _, _)) = it.next() else {
+            per.push("?missing".to_string());
+            continue;
+        };
+        let cap = f.instrs.len() + 4;
+        per.push(if eh {
+            let mut s = EhFrame::new(bytes, endian);
+            s.set_address_size(c.asz);
+            s.set_vendor(Vendor::AArch64);
+            rows_of(&s, bytes, &bases, off, cap)
+        } else {
+            let mut s = DebugFrame::new(bytes, endian);
+            s.set_address_size(c.asz);
+            s.set_vendor(Vendor::AArch64);
+            rows_of(&s, bytes, &bases, off, cap)
+        });
+    }
+    join(per, "&")
+}
+
 /// the direct oracle; `None` = the implementation's own output satisfies the property on this case
 fn oracle(eh: bool, big: bool, cies: &[ACie], fdes: &[AFde], wr: &Written) -> Option<String> {
     // identical CIEs share one id, different ones do not
@@ -963,6 +1048,21 @@ pub fn handle(op: &str, a: &[&str]) -> Option<String> {
             let fs = split(fdes, ';').into_iter().map(p_fde).collect::<Option<Vec<_>>>()?;
             let (r, o, _) = run_table(eh, big, &cs, &fs)?;
             Some(with_oracle(r, o))
+        }
+        ("wcfi-rows", [mode, s, e, cies, fdes]) => {
+            if !matches!(*mode, "debug" | "release") {
+                return None;
+            }
+            let eh = sec(s)?;
+            let big = en(e)?;
+            let cs = split(cies, ';').into_iter().map(p_cie).collect::<Option<Vec<_>>>()?;
+            let fs = split(fdes, ';').into_iter().map(p_fde).collect::<Option<Vec<_>>>()?;
+            let wr = write_table(eh, big, &cs, &fs)?;
+            Some(match &wr.res {
+                Err(e) => format!("err {e}"),
+                Ok(_) if !readable(eh, &cs, &fs) => "ok skip".to_string(),
+                Ok(bytes) => format!("ok {}", fde_rows_text(eh, big, &cs, &fs, &wr, bytes)),
+            })
         }
         ("wcfi-blk-adv", [mode, s, e, fmt, ver, asz, caf, prev, lo, count]) => {
             if !matches!(*mode, "debug" | "release") {
@@ -1496,7 +1596,12 @@ pub fn gen(ctx: &Ctx, emit: &mut dyn FnMut(String)) {
     let n = ctx.n(14_000, 300_000);
     for k in 0..n {
         let valid = k % 10 < 7;
-        emit(g_table(&mut rng, valid));
+        let line = g_table(&mut rng, valid);
+        if valid || k % 3 == 0 {
+            // the same table: rows read back vs the Spec's meaning of the supplied instructions
+            emit(line.replacen("wcfi-table", "wcfi-rows", 1));
+        }
+        emit(line);
     }
     let _ = thorough;
 }
